@@ -33,6 +33,7 @@ class TimedContext(Unit):
     def programs(self, tier):
         progs = [
             ("a30,a10,a10", "-"),               # order 10,10 (FIFO),30 by sleeping to each deadline
+            ("a5,a10,a10,a10", "-"),            # ties behind the head (the walk's <=)
             ("a30,a10,a10,a500s", "-"),         # + a far timer cancelled from another thread
             ("a10s", "20,k"),                   # cancel racing the expiry / the pop
             ("a0s", "-"),                       # zero delay, cancel racing the pop
@@ -200,6 +201,7 @@ class UnsafeLoop(Unit):
     def programs(self, tier):
         progs = [
             ("a30,a10,a10", "s0,s1,s2,r", "-"),
+            ("a5,a10,a10,a10", "s0,s1,s2,s3,r", "-"),                 # ties behind the head (the walk's <=)
             ("a30,a10,a10,a500", "s0,s1,s2,s3,x3,r", "-"),          # cancel a queued far timer
             ("a30,a10,a500", "s0,s1,s2,r", "1:x2"),                   # cancel from inside a receiver
             ("a10,a20", "s0,r", "0:s1"),                              # start from inside a receiver
